@@ -43,9 +43,10 @@ func c17Processor(db *gorm.DB, i int) *gorm.VerifProcessor {
 }
 
 type c17Op struct {
-	kind   int // 0 Register, 1 Before(x).Register, 2 After(x).Register, 3 Replace, 4 Remove
-	name   string
-	anchor string
+	kind    int // 0 Register, 1 Before(x).Register, 2 After(x).Register, 3 Replace, 4 Remove, 5 Before(x).After(y).Register
+	name    string
+	anchor  string
+	anchor2 string // After anchor of kind 5
 }
 
 func indexOf(xs []string, s string) int {
@@ -100,9 +101,12 @@ func c17Describe(op c17Op, prev []c17Op, base []string) string {
 		}
 		return "fresh"
 	}
-	k := []string{"Register", "Before", "After", "Replace", "Remove"}[op.kind]
+	k := []string{"Register", "Before", "After", "Replace", "Remove", "BeforeAfter"}[op.kind]
 	if op.kind == 1 || op.kind == 2 {
 		return k + "(" + cls(op.anchor) + ")." + cls(op.name)
+	}
+	if op.kind == 5 {
+		return k + "(" + cls(op.anchor) + "," + cls(op.anchor2) + ")." + cls(op.name)
 	}
 	return k + "." + cls(op.name)
 }
@@ -138,13 +142,13 @@ func H_C17_Register(shape int) {
 	failed := false
 	for k := 0; k < nops; k++ {
 		tag := "op" + string([]byte{byte('0' + k)})
-		kind := verifrt.Intn(tag+"_kind", 0, 4)
-		kind = verifrt.Concretize(kind, 0, 4)
+		kind := verifrt.Intn(tag+"_kind", 0, 5)
+		kind = verifrt.Concretize(kind, 0, 5)
 		op := c17Op{kind: kind}
 		op.name = c17Name(tag+"_name", builtins, false)
 		gen++
 		switch kind {
-		case 0, 1, 2:
+		case 0, 1, 2, 5:
 			// a plain or positioned Register of a name that already exists is
 			// excluded (gorm documents "duplicated callback", later handler wins)
 			verifrt.Assume(indexOf(live, op.name) < 0)
@@ -152,7 +156,16 @@ func H_C17_Register(shape int) {
 				// also not a name registered-then-removed earlier (stale entries remain in the list)
 				verifrt.Assume(ops[j].name != op.name)
 			}
-			if kind != 0 {
+			if kind == 5 {
+				// Before(a built-in callback).After(a user callback, possibly registered later)
+				op.anchor = builtins[verifrt.Intn(tag+"_anchor_idx", 0, len(builtins)-1)]
+				b2 := verifrt.Byte(tag + "_anchor2_chr")
+				verifrt.Assume(verifrt.Or(verifrt.Or(b2 == 'a', b2 == 'b'), b2 == 'c'))
+				op.anchor2 = string([]byte{b2})
+				verifrt.Assume(op.anchor != op.name)
+				verifrt.Assume(op.anchor2 != op.name)
+				verifrt.Assume(op.anchor2 != op.anchor)
+			} else if kind != 0 {
 				op.anchor = c17Name(tag+"_anchor", builtins, true)
 				verifrt.Assume(op.anchor != op.name)
 				if op.anchor == "*" {
@@ -179,6 +192,8 @@ func H_C17_Register(shape int) {
 			e = p.Replace(op.name, mk(op.name+"!"))
 		case 4:
 			e = p.Remove(op.name)
+		case 5:
+			e = p.Before(op.anchor).After(op.anchor2).Register(op.name, mk(op.name))
 		}
 		if e != nil {
 			failed = true
@@ -186,7 +201,7 @@ func H_C17_Register(shape int) {
 		}
 		ops = append(ops, op)
 		switch kind {
-		case 0, 1, 2:
+		case 0, 1, 2, 5:
 			live = append(live, op.name)
 		case 3:
 			if i := indexOf(live, op.name); i >= 0 {
@@ -250,6 +265,19 @@ func H_C17_Register(shape int) {
 		return indexOf(log, n+"!")
 	}
 	for _, op := range ops {
+		if op.kind == 5 {
+			me := pos(op.name)
+			if me < 0 {
+				continue
+			}
+			if a := pos(op.anchor); a >= 0 {
+				verifrt.Assert(me < a, "C17.before")
+			}
+			if a := pos(op.anchor2); a >= 0 {
+				verifrt.Assert(me > a, "C17.after")
+			}
+			continue
+		}
 		if op.kind != 1 && op.kind != 2 {
 			continue
 		}
